@@ -96,15 +96,35 @@ func fillProps(r *rng, target reflect.Value, pct int) {
 		}
 		if r.chance(pct) {
 			nv := reflect.New(f.Type.Elem())
-			// give string fields a value so that serialisation is meaningful
-			for j := 0; j < nv.Elem().NumField(); j++ {
-				if nv.Elem().Field(j).Kind() == reflect.String {
-					nv.Elem().Field(j).SetString(fmt.Sprintf("v%d", r.intn(100)))
-				}
-			}
+			fillSetting(r, nv.Elem(), 3)
 			e.Field(i).Set(nv)
 		} else if r.chance(30) {
 			e.Field(i).Set(reflect.Zero(f.Type))
+		}
+	}
+}
+
+// fillSetting: string fields get a value (so that serialisation is meaningful); settings nested inside a setting
+// (the sides of a border, ...) are populated too, each with some probability
+func fillSetting(r *rng, v reflect.Value, depth int) {
+	for j := 0; j < v.NumField(); j++ {
+		fv := v.Field(j)
+		if v.Type().Field(j).Name == "XMLName" || !fv.CanSet() {
+			continue
+		}
+		switch fv.Kind() {
+		case reflect.String:
+			fv.SetString(fmt.Sprintf("v%d", r.intn(100)))
+		case reflect.Ptr:
+			if depth > 0 && fv.Type().Elem().Kind() == reflect.Struct && r.chance(60) {
+				nv := reflect.New(fv.Type().Elem())
+				fillSetting(r, nv.Elem(), depth-1)
+				fv.Set(nv)
+			}
+		case reflect.Struct:
+			if depth > 0 {
+				fillSetting(r, fv, depth-1)
+			}
 		}
 	}
 }
